@@ -81,8 +81,9 @@ def run_history(hist):
         kids = {}
         lineages = {}
         trace = []
+        fz, fzo = set(), set()
         for (a, t, code) in hist:
-            ev = dict(a=a, t=t, code=code, kid=0)
+            ev = dict(a=a, t=t, code=code, kid=0, set=[0, 0, 0])
             with warnings.catch_warnings():
                 warnings.simplefilter("ignore")
                 if a == "set":
@@ -94,6 +95,14 @@ def run_history(hist):
                     st.register(classes[code])
                 elif a == "new":
                     st = st.new_context()
+                elif a in ("fz", "fzo"):
+                    cur = fz if a == "fz" else fzo
+                    (cur.add if code else cur.discard)(t)
+                    ev["set"] = [int(k in cur) for k in (1, 2, 3)]
+                    if a == "fz":
+                        st.set_context_config(dict(fuzzy_for=tuple(TYPE[k] for k in sorted(fz))))
+                    else:
+                        st.set_context_config(dict(fuzzy_for_options=tuple(OPT[k] for k in sorted(fzo))))
                 elif a in ("get", "key"):
                     try:
                         if a == "get":
@@ -117,6 +126,7 @@ def job(hists):
     return [run_history(h) for h in hists]
 
 
+FUZZY_ACTIONS = [(a, t, on) for a in ("fz", "fzo") for t in (1, 2, 3) for on in (1, 0)]
 ACTIONS = ([("set", o, v) for o in (1, 2, 3, 4) for v in (0, 1, 2)] + [("reg", c["t"], c["uid"]) for c in CLASSES]
            + [("new", 0, 0)] + [("get", t, 0) for t in (1, 2, 3)] + [("key", t, 0) for t in (1, 2, 3)])
 
@@ -133,13 +143,19 @@ def histories(tier, seed):
     for ch1 in changes[::2]:
         for ch2 in changes[1::3]:
             H_.append([("get", 3, 0), ch1, ("key", 2, 0), ch2, ("get", 3, 0), ("get", 2, 0)])
+    # fuzzy matching: store under one lineage, change a tracked option / class of type c, turn fuzzy matching on for a type or an
+    # option, read (accepted iff the lineage differs only in the fuzzy parts), turn it off, read again (nothing was written)
+    fchanges = [a for a in changes if a[0] in ("set", "reg") and a[1] in (1, 2, 3)]
+    for ch in (fchanges if tier != "quick" else fchanges[::2]):
+        for fa in [f for f in FUZZY_ACTIONS if f[2] == 1]:
+            H_.append([("get", 3, 0), ch, fa, ("get", 3, 0), ("get", 2, 0), (fa[0], fa[1], 0), ("get", 3, 0)])
     rng = random.Random(seed)
     n = 150 if tier == "quick" else 3000
     for _ in range(n):
         ln = rng.randint(4, 12 if tier == "quick" else 30)
         h = []
         for _ in range(ln):
-            a = rng.choice(ACTIONS)
+            a = rng.choice(ACTIONS) if rng.random() < 0.85 else rng.choice(FUZZY_ACTIONS)
             if a[0] in ("set", "reg", "new") and rng.random() < 0.4:
                 a = rng.choice(gets)
             h.append(a)
@@ -155,11 +171,12 @@ def validate(chk, traces):
     for off in range(0, len(traces), CH):
         part = traces[off:off + CH]
         files = {"MCT.tla": "---- MODULE MCT ----\nEXTENDS LineageTrace\n" + classes_tla() + "====\n",
-                 "MCT.cfg": V.cfg_text(dict(Repaired=True, MaxLen=0), ["Progress", "NoStaleRead", "KeyIsLineage"], spec="TraceSpec",
-                                       overrides=dict(Classes="ClassesDef"), extra="POSTCONDITION AllAccepted\n")}
+                 "MCT.cfg": V.cfg_text(dict(Repaired=True, MaxLen=0, FzChoices=set(), FzoChoices=set()),
+                                       ["Progress", "NoStaleRead", "KeyIsLineage", "FuzzyAccepts"], spec="TraceSpec",
+                                       overrides=dict(Classes="ClassesDef"), extra="PROPERTY NothingWrittenUnderFuzzy\nPOSTCONDITION AllAccepted\n")}
         d = V.stage_spec([], files)
         with open(os.path.join(d, "traces.json"), "w") as f:
-            json.dump([[dict(a=e["a"], t=e["t"], code=e["code"], kid=e["kid"]) for e in tr] for tr in part], f)
+            json.dump([[dict(a=e["a"], t=e["t"], code=e["code"], kid=e["kid"], set=e["set"]) for e in tr] for tr in part], f)
         r = V.run_tlc(d, "MCT", "MCT.cfg", workers=1, timeout=1800, env={"TRACE_FILE": os.path.join(d, "traces.json")}, heap="4g")
         chk.add_tlc(r, f"trace validation of {len(part)} histories (LineageTrace.tla)")
         rej = {int(m.group(1)): int(m.group(2)) for m in re.finditer(r'"REJECTED trace", (\d+), "at event", (\d+)', r.out)}
@@ -239,10 +256,11 @@ def run(chk):
     V.quiet_threads()
     # design level
     for rep, ml in ((True, 4 if chk.tier == "quick" else 5), (False, 4)):
-        files = {"MC.tla": "---- MODULE MC ----\nEXTENDS Lineage\n" + classes_tla() + "====\n",
-                 "MC.cfg": V.cfg_text(dict(Repaired=rep, MaxLen=ml), ["NoStaleRead", "KeyIsLineage", "TrackedMoves",
-                                                                      "UntrackedMovesNothing", "ClassMoves"],
-                                      overrides=dict(Classes="ClassesDef"))}
+        files = {"MC.tla": "---- MODULE MC ----\nEXTENDS Lineage\n" + classes_tla() + "FzDef == {{}, {2}}\nFzoDef == {{}, {1}}\n====\n",
+                 "MC.cfg": V.cfg_text(dict(Repaired=rep, MaxLen=ml),
+                                      ["NoStaleRead", "KeyIsLineage", "TrackedMoves", "UntrackedMovesNothing", "ClassMoves", "FuzzyAccepts"],
+                                      overrides=dict(Classes="ClassesDef", FzChoices="FzDef", FzoChoices="FzoDef"),
+                                      extra="PROPERTY NothingWrittenUnderFuzzy\n")}
         d = V.stage_spec([], files)
         r = V.run_tlc(d, "MC", "MC.cfg", timeout=1800)
         chk.add_tlc(r, f"Lineage.tla histories <= {ml}, Repaired={rep}")
